@@ -158,9 +158,9 @@ func diff(want any, got any, present bool, path string, exact bool, out *[]delta
 // ---- the oracle ---------------------------------------------------------------------
 
 type syncObs struct {
-	mode  string // csa | ssa | upgrade (client-side for the first sync, server-side afterwards)
-	ssa   bool   // the syncer that ran this sync
-	phase string // first | resync | settle
+	mode  string                     // csa | ssa | upgrade (client-side for the first sync, server-side afterwards)
+	ssa   bool                       // the syncer that ran this sync
+	phase string                     // first | resync | settle
 	cin   *unstructured.Unstructured // the claim as stored when the reconcile started
 	cprev *unstructured.Unstructured // the claim input of the previous sync (nil at first sync)
 	x0    *unstructured.Unstructured // the XR as stored when the reconcile started (nil at first sync)
